@@ -68,6 +68,10 @@ STEP_BUDGET = 20_000  # logical steps (checkpoints + rule entries) per parse; th
 
 
 def build(gid: str, setting: str, kind: str):
+    return build_text(grammar_text(gid), setting, kind)
+
+
+def build_text(text: str, setting: str, kind: str):
     from pest import DEFAULT_OPTIMIZER_PASSES, Optimizer, Parser
 
     from pv import monitor
@@ -76,7 +80,6 @@ def build(gid: str, setting: str, kind: str):
     # not as a watchdog: every parse runs under the logical step budget of pv.monitor
     monitor.install()
     monitor.set_budget(STEP_BUDGET)
-    text = grammar_text(gid)
     if setting == "none":
         p = Parser.from_grammar(text, optimizer=None)
     elif setting == "default":
@@ -225,6 +228,183 @@ def history_worker(shard: dict) -> dict:  # noqa: PLR0912, PLR0915
     return acc.dump()
 
 
+# ----------------------------------------------------------------------------- random-grammar histories
+
+RSETTINGS = ["none", "default", "pipe:3,1", "pipe:1,3,0,4", "debug"]
+
+
+def random_pool(seed: int, n: int) -> list[dict]:
+    """n seeded random grammars (all features) with a handful of calls each."""
+    from pv.gen import grammars as G
+    from pv.ref.refpeg import grammar_text as show
+
+    out = []
+    i = 0
+    while len(out) < n and i < n * 3:
+        rnd = random.Random(seed_int(seed, "pool", i))
+        i += 1
+        prof = dict(G.PROFILES[rnd.choice(["full", "full", "trivia", "stack"])])
+        prof.update({"tags": True, "skipuntil": True, "skipuntil_ci": True, "trivia_refs": rnd.random() < 0.4, "push_empty": rnd.random() < 0.3})
+        rules = G.GrammarGen(rnd, prof).grammar(maxdepth=3)
+        names = [k for k in rules if k not in ("WHITESPACE", "COMMENT")]
+        alpha = G.alphabet(rules, " ")
+        d = G.Deriver(rules, rnd, alpha)
+        calls: list[list] = []
+        for _ in range(12):
+            rule = rnd.choice(names[:2])
+            t = d.derive(rule)
+            if rnd.random() < 0.35:
+                t = G.mutate(t, rnd, alpha)
+            if len(t) <= 40 and [rule, t] not in calls:
+                calls.append([rule, t])
+        calls.append([names[0], ""])
+        out.append({"gid": f"rnd{len(out)}", "text": show(rules), "calls": calls[:8]})
+    return out
+
+
+def pristine_batch_main() -> None:
+    """python -m pv.checks.c15 pristine_batch <json file>: every call on a freshly built object, in a fresh interpreter."""
+    sys.setrecursionlimit(20000)
+    with open(sys.argv[2], encoding="utf-8") as fd:
+        job = json.load(fd)
+    res = []
+    for setting, kind, rule, text in job["calls"]:
+        try:
+            obj = build_text(job["text"], setting, kind)
+        except Exception as e:  # noqa: BLE001
+            res.append(["build-error", type(e).__name__])
+            continue
+        res.append(observe(obj, rule, text, 0))
+    sys.stdout.write(json.dumps(res))
+
+
+def pristine_batch(g: dict, env: dict, workdir: str):
+    calls = [[s, k, r, t] for s in RSETTINGS for k in KINDS for r, t in g["calls"]]
+    path = os.path.join(workdir, g["gid"] + ".json")
+    with open(path, "w", encoding="utf-8") as fd:
+        json.dump({"text": g["text"], "calls": calls}, fd)
+    try:
+        p = subprocess.run([PYTHON, "-B", "-m", "pv.checks.c15", "pristine_batch", path], cwd=VERIF, env=env, capture_output=True, text=True, timeout=300, check=False)
+    except subprocess.TimeoutExpired:
+        return None
+    if p.returncode != 0:
+        return None
+    return {(s, k, r, t): _tup(v) for (s, k, r, t), v in zip(calls, json.loads(p.stdout))}
+
+
+def random_history_worker(shard: dict) -> dict:  # noqa: PLR0912, PLR0915
+    """Histories over seeded RANDOM grammars (mixed with the fixed pool): the oracle is one fresh process per grammar
+    in which every call runs on a freshly built object."""
+    import tempfile
+
+    acc = Acc()
+    rnd = random.Random(shard["seed"])
+    pool = random_pool(shard["seed"], shard["grammars"])
+    env = dict(os.environ)
+    env["PYTHONHASHSEED"] = "0"
+    tables: dict[str, dict] = {}
+    with tempfile.TemporaryDirectory(prefix="pv-c15-") as wd:
+        for g in pool:
+            t = pristine_batch(g, env, wd)
+            if t is None:
+                acc.inconclusive.append(f"pristine batch oracle failed for a random grammar (seed {shard['seed']}, {g['gid']})")
+                continue
+            tables[g["gid"]] = t
+            acc.count("rhistory.pristine_batch_processes")
+            acc.count("rhistory.pristine_calls", len(t))
+    pool = [g for g in pool if g["gid"] in tables]
+    if not pool:
+        return acc.dump()
+    byid = {g["gid"]: g for g in pool}
+    objs: dict[tuple, object] = {}
+    recent: list[str] = []
+    vk: dict = {}
+
+    def create():
+        if rnd.random() < 0.25:
+            # objects of the fixed pool live in the same process: cross-grammar contamination goes both ways
+            gid = rnd.choice(list(CALLS))
+            setting, kind = rnd.choice(SETTINGS), rnd.choice(KINDS)
+            o = build(gid, setting, kind)
+            rule, text = rnd.choice(CALLS[gid])
+            observe(o, rule, text, 0)
+            recent.append(f"create+parse fixed {gid}/{setting}/{kind}")
+            acc.count("rhistory.ops.fixed_pool_object")
+            return
+        g = rnd.choice(pool)
+        setting, kind = rnd.choice(RSETTINGS), rnd.choice(KINDS)
+        try:
+            objs[(g["gid"], setting, kind, rnd.randrange(2))] = build_text(g["text"], setting, kind)
+        except Exception as e:  # noqa: BLE001
+            objs[(g["gid"], setting, kind, 0)] = ("build-error", type(e).__name__)
+        recent.append(f"create {g['gid']}/{setting}/{kind}")
+        acc.count("rhistory.ops.create")
+
+    def parse():
+        live = [k for k, o in objs.items() if not isinstance(o, tuple)]
+        if not live:
+            return create()
+        key = rnd.choice(live)
+        rule, text = rnd.choice(byid[key[0]]["calls"])
+        r = observe(objs[key], rule, text, 0)
+        recent.append(f"parse {key[0]}/{key[1]}/{key[2]} {rule} {text[:12]!r} -> {r[0]}")
+        acc.count("rhistory.ops.parse_" + r[0])
+        return None
+
+    def generate():
+        live = [k for k, o in objs.items() if k[2] == "interp" and not isinstance(o, tuple)]
+        if live:
+            objs[rnd.choice(live)].generate()
+            acc.count("rhistory.ops.generate")
+
+    def forget():
+        if len(objs) > 14:
+            for k in rnd.sample(list(objs), 7):
+                del objs[k]
+
+    ops = [create, create, parse, parse, parse, generate, forget]
+    for step in range(shard["steps"]):
+        rnd.choice(ops)()
+        del recent[:-12]
+        if step % 3 != 2:
+            continue
+        g = rnd.choice(pool)
+        setting, kind = rnd.choice(RSETTINGS), rnd.choice(KINDS)
+        if objs and rnd.random() < 0.6:
+            # prefer a call on an object that already lived through the history
+            k0 = rnd.choice(list(objs))
+            g, setting, kind = byid[k0[0]], k0[1], k0[2]
+        rule, text = rnd.choice(g["calls"])
+        key = next((k for k in objs if k[:3] == (g["gid"], setting, kind)), None)
+        reuse = key is not None and rnd.random() < 0.7
+        if reuse:
+            obj = objs[key]
+        else:
+            try:
+                obj = build_text(g["text"], setting, kind)
+            except Exception as e:  # noqa: BLE001
+                obj = ("build-error", type(e).__name__)
+        got = obj if isinstance(obj, tuple) else observe(obj, rule, text, 0)
+        want = tables[g["gid"]][(setting, kind, rule, text)]
+        acc.count("rhistory.observed_calls")
+        acc.count("rhistory.observed_on_" + ("reused_object" if reuse else "fresh_object"))
+        acc.count("rhistory.observed_result." + str(got[0]))
+        acc.nontrivial(g["text"], setting, kind, rule, text, reuse)
+        if got != want:
+            k = (setting != "none", kind, got[0], want[0])
+            if vk.get(k, 0) < 2:
+                vk[k] = vk.get(k, 0) + 1
+                acc.violation(
+                    "c15-random-history",
+                    {"what": "result depends on what happened earlier in the process", "grammar": g["text"], "call": [setting, kind, rule, text], "reused_object": reuse,
+                     "pristine_process": want, "after_history": got, "last_operations": list(recent), "history_seed": shard["seed"], "step": step},
+                )
+            else:
+                acc.nviol += 1
+    acc.sample({"random_history_seed": shard["seed"], "grammar": pool[0]["text"], "calls": pool[0]["calls"][:3]})
+    return acc.dump()
+
+
 # ----------------------------------------------------------------------------- schedule worker
 
 
@@ -365,18 +545,22 @@ def main(tier: str, seed: int) -> int:
                 run.acc.violation("c15-history", {"what": "two fresh processes disagree on the same call", "call": list(call), "first": want, "second": res})
     shards = [{"seed": seed_int("C15", seed, "h", j), "steps": run.pick(240, 2500), "table": table} for j in range(16)]
     run_workers("pv.checks.c15", "history_worker", shards, timeout_s=run.pick(900, 7200), acc=run.acc)
+    shards = [{"seed": seed_int("C15", seed, "rh", j), "grammars": run.pick(5, 14), "steps": run.pick(240, 2400)} for j in range(run.pick(16, 64))]
+    run_workers("pv.checks.c15", "random_history_worker", shards, timeout_s=run.pick(900, 7200), acc=run.acc)
     shards = [
         {"seed": seed_int("C15", seed, "s", j) % 100000, "objects": 6, "threads": rnd.choice([8, 12, 16]), "calls_per_thread": run.pick(14, 60), "builds_per_thread": run.pick(3, 12), "p_yield": rnd.choice([0.01, 0.03, 0.08])}
         for j in range(run.pick(16, 96))
     ]
     run_workers("pv.checks.c15", "schedule_worker", shards, timeout_s=run.pick(900, 7200), acc=run.acc)
-    run.acc.count("calls", run.acc.c["history.observed_calls"] + run.acc.c["schedule.parse_calls"])
+    run.acc.count("calls", run.acc.c["history.observed_calls"] + run.acc.c["rhistory.observed_calls"] + run.acc.c["schedule.parse_calls"])
     return run.finish(
         rule=(
             "history part: per worker process one long seeded history over {create parser for one of 9 grammars with optimizer None / default / 4 custom "
             "pipelines / debug=True, interpreted or generated; generate(); succeeding and failing parses on any live object; dropping objects}, with an "
             "observed call every third operation, on a reused or a newly built object, compared (tree, or failure position + expected/unexpected sets) "
-            "with the same call in a fresh interpreter process (one process per observed call, table computed once per run). schedule part: short runs "
+            "with the same call in a fresh interpreter process (one process per observed call, table computed once per run). random-grammar histories: "
+            "the same over seeded random grammars of all profiles (5-14 per worker, mixed with objects of the fixed pool), oracle = one fresh process per "
+            "grammar in which every call runs on a freshly built object. schedule part: short runs "
             "of 8-16 parser threads on 6 shared objects (a third of the threads on the SAME object, rule and input) plus 2 threads building and optimizing "
             "new parsers, switch interval 1 us, seeded sleep(0) injection on LINE events inside pest/ and generated-module frames; each result compared "
             "with the single-threaded baseline. distinct_nontrivial = distinct (observed call, reused?, history segment) + schedule runs."
@@ -387,7 +571,8 @@ def main(tier: str, seed: int) -> int:
         ],
         evaluations_key="calls",
         floors={
-            "history.observed_calls": 800, "history.pristine_oracle_processes": 150, "history.observed_on_reused_object": 200, "history.ops.create_optimized_interp": 100,
+            "history.observed_calls": 800, "history.pristine_oracle_processes": 150, "history.observed_on_reused_object": 200, "history.ops.create_optimized_interp": 100, "rhistory.observed_calls": 800,
+            "rhistory.pristine_batch_processes": 40, "rhistory.observed_on_reused_object": 200,
             "history.ops.create_unoptimized_interp": 20, "schedule.parse_calls": 1000, "schedule.thread_switches_inside_pest_frames": 5000, "schedule.yields_injected": 2000,
         },
     )
@@ -408,5 +593,7 @@ def replay(path: str) -> int:
 
 
 if __name__ == "__main__":
-    if len(sys.argv) > 1 and sys.argv[1] == "pristine":
+    if len(sys.argv) > 1 and sys.argv[1] == "pristine_batch":
+        pristine_batch_main()
+    elif len(sys.argv) > 1 and sys.argv[1] == "pristine":
         pristine_main()
